@@ -688,16 +688,25 @@ def dedup_order_by(
 # the user to come up with dummy names that are not required later anymore. It has
 # to be done before a join so that all column references in the join subtrees remain
 # valid.
-def create_aliases(nd: AstNode, num_occurrences: dict[str, int]) -> dict[str, int]:
+def create_aliases(
+    nd: AstNode, num_occurrences: dict[str, int], reserved: set[str] | None = None
+) -> dict[str, int]:
+    if reserved is None:
+        # names a generated alias must not take: those of the tables in the query
+        reserved = {leaf.table.name for leaf in nd.iter_subtree_postorder() if isinstance(leaf, TableImpl)}
+
     if isinstance(nd, verbs.Verb):
-        num_occurrences = create_aliases(nd.child, num_occurrences)
+        num_occurrences = create_aliases(nd.child, num_occurrences, reserved)
 
         if isinstance(nd, verbs.Join | verbs.Union):
-            num_occurrences = create_aliases(nd.right, num_occurrences)
+            num_occurrences = create_aliases(nd.right, num_occurrences, reserved)
 
     elif isinstance(nd, TableImpl):
         table_name = nd.table.name
         if cnt := num_occurrences.get(table_name):
+            while f"{table_name}_{cnt}" in reserved:
+                cnt += 1
+            reserved.add(f"{table_name}_{cnt}")
             nd.table = nd.table.alias(f"{table_name}_{cnt}")
         else:
             # always set alias to shorten queries with schemas
